@@ -1,0 +1,90 @@
+//! Verification hooks (cargo feature `verif-hooks`, off by default).
+//!
+//! Nothing in this module changes the behaviour of the data structure. It provides
+//! - a *tick*: every arena access burns one unit of a thread-local fuel budget (disarmed by
+//!   default) and optionally calls a user-registered yield function. A deterministic simulator
+//!   uses this to turn an endless loop inside a library call into a replayable panic, to count
+//!   steps, and to place scheduling points between arena accesses.
+//! - a seeded hasher for the `HashMap` / `HashSet` that the `serde` implementation goes through,
+//!   such that the (otherwise randomized) iteration order becomes a function of a seed.
+
+use std::cell::Cell;
+
+thread_local! {
+    static FUEL: Cell<u64> = const { Cell::new(u64::MAX) };
+    static TICKS: Cell<u64> = const { Cell::new(0) };
+    static YIELD: Cell<Option<fn()>> = const { Cell::new(None) };
+    static HASH_KEYS: Cell<(u64, u64)> = const { Cell::new((0, 0)) };
+}
+
+/// Message of the panic raised when the fuel budget is exhausted.
+pub const FUEL_EXHAUSTED: &str = "verif-hooks: fuel exhausted";
+
+/// Called on every arena access.
+#[inline]
+pub(crate) fn tick() {
+    TICKS.with(|t| t.set(t.get().wrapping_add(1)));
+    let fuel = FUEL.with(|f| f.get());
+    if fuel != u64::MAX {
+        if fuel == 0 {
+            // disarm, such that unwinding (which may access the arena in `Drop`) cannot panic again.
+            FUEL.with(|f| f.set(u64::MAX));
+            panic!("{}", FUEL_EXHAUSTED);
+        }
+        FUEL.with(|f| f.set(fuel - 1));
+    }
+    if let Some(f) = YIELD.with(|y| y.get()) {
+        f()
+    }
+}
+
+/// Set the fuel budget of the current thread. `u64::MAX` disarms the budget.
+pub fn set_fuel(fuel: u64) {
+    FUEL.with(|f| f.set(fuel))
+}
+
+/// Get the remaining fuel budget of the current thread.
+pub fn fuel() -> u64 {
+    FUEL.with(|f| f.get())
+}
+
+/// Number of arena accesses performed by the current thread so far.
+pub fn ticks() -> u64 {
+    TICKS.with(|t| t.get())
+}
+
+/// Register (or remove) a function that is called on every arena access of the current thread.
+pub fn set_yield(f: Option<fn()>) {
+    YIELD.with(|y| y.set(f))
+}
+
+/// Set the keys of the hasher used by the `serde` implementation on the current thread.
+pub fn set_hash_keys(k0: u64, k1: u64) {
+    HASH_KEYS.with(|k| k.set((k0, k1)))
+}
+
+/// `BuildHasher` whose keys are taken from [`set_hash_keys`] at construction time.
+#[derive(Clone, Copy, Debug)]
+pub struct SeededState(u64, u64);
+
+impl Default for SeededState {
+    fn default() -> Self {
+        let (k0, k1) = HASH_KEYS.with(|k| k.get());
+        Self(k0, k1)
+    }
+}
+
+impl std::hash::BuildHasher for SeededState {
+    #[allow(deprecated)]
+    type Hasher = std::hash::SipHasher;
+
+    #[allow(deprecated)]
+    fn build_hasher(&self) -> Self::Hasher {
+        std::hash::SipHasher::new_with_keys(self.0, self.1)
+    }
+}
+
+/// The same `std::collections::HashMap`, but with the seeded hasher.
+pub type HashMap<K, V> = std::collections::HashMap<K, V, SeededState>;
+/// The same `std::collections::HashSet`, but with the seeded hasher.
+pub type HashSet<K> = std::collections::HashSet<K, SeededState>;
